@@ -118,6 +118,9 @@ const warnStartDelim = "HELM_ERR_START"
 const warnEndDelim = "HELM_ERR_END"
 const recursionMaxNums = 1000
 
+// tplDepthKey is the entry of the include counters that holds the nesting depth of tpl.
+const tplDepthKey = "\x00tpl"
+
 var warnRegex = regexp.MustCompile(warnStartDelim + `((?s).*)` + warnEndDelim)
 
 func warnWrap(warn string) string {
@@ -147,6 +150,16 @@ func includeFun(t *template.Template, includedNames map[string]int) func(string,
 // defined by their enclosing contexts.
 func tplFun(parent *template.Template, includedNames map[string]int, strict bool) func(string, interface{}) (string, error) {
 	return func(tpl string, vals interface{}) (string, error) {
+		// A template that passes its own text to tpl (directly or through values) recurses
+		// without end; unlike 'template' and 'include' nothing else bounds that, and running
+		// out of stack cannot be recovered from. The nesting depth of tpl is counted next to
+		// the include counters, under a key that is not a valid template name here.
+		if includedNames[tplDepthKey] > recursionMaxNums {
+			return "", errors.Wrapf(fmt.Errorf("unable to execute template"), "tpl is nested more than %d levels deep", recursionMaxNums)
+		}
+		includedNames[tplDepthKey]++
+		defer func() { includedNames[tplDepthKey]-- }()
+
 		t, err := parent.Clone()
 		if err != nil {
 			return "", errors.Wrapf(err, "cannot clone template")
